@@ -476,6 +476,7 @@ class Analysis:
                     val = self.ev(v["init"], st, pure, root)
                     if key and not pure:
                         st[key] = self.convert(val, f.T(v["t"]))
+                        self.note_copy(key, v["init"], st)
                 elif key and not pure:
                     st[key] = type_range(f.T(v["t"]))   # uninitialised: any value
                 if not pure:
@@ -530,6 +531,7 @@ class Analysis:
                     for ch in children(la):
                         self.ev(ch, st, pure, root)
                 self.store(e["a"], self.lkey(e["a"]), v, st)
+                self.note_copy(self.lkey(e["a"]), e["b"], st)
             return v
         if op == ",":
             self.ev(e["a"], st, pure, root)
@@ -733,7 +735,53 @@ class Analysis:
                 return s
         return type_range(T)
 
+    def note_copy(self, key, rhs, st):
+        """remember  x == y + c  for local integer variables (a one-step relational fact: refinements of y reach x and back)"""
+        if key is None or key[0] != "v":
+            return
+        r = rhs
+        while isinstance(r, dict) and r.get("k") == "cast" and r.get("ck") in ("LValueToRValue", "NoOp", "IntegralCast"):
+            if r.get("ck") == "IntegralCast":
+                # only value preserving on the current range
+                iv = self.ev(r["e"], st, True)
+                tr = type_range(self.f.T(r.get("t")))
+                if not iv.within(tr.lo, tr.hi):
+                    return
+            r = r["e"]
+        c = 0
+        if isinstance(r, dict) and r.get("k") == "bin" and r.get("op") in ("+", "-") and cval(r["b"]) is not None and cval(r) is None:
+            c = cval(r["b"]) if r["op"] == "+" else -cval(r["b"])
+            r = r["a"]
+            while isinstance(r, dict) and r.get("k") == "cast" and r.get("ck") in ("LValueToRValue", "NoOp", "IntegralCast"):
+                r = r["e"]
+        yk = self.lkey(r) if isinstance(r, dict) else None
+        if yk is not None and yk[0] == "v" and yk != key:
+            st[("r", key[1])] = (yk[1], c)
+
+    def propagate(self, st):
+        """apply the copy relations x == y + c in both directions"""
+        if st is None:
+            return st
+        for k in [k for k in st if k[0] == "r"]:
+            y, c = st[k]
+            xk, yk = ("v", k[1]), ("v", y)
+            vx, vy = st.get(xk), st.get(yk)
+            if vx is None or vy is None or vx.nan or vy.nan:
+                continue
+            lo = max(vx.lo, vy.lo + c)
+            hi = min(vx.hi, vy.hi + c)
+            if lo > hi:
+                return None
+            st[xk] = AV(lo, hi)
+            st[yk] = AV(max(vy.lo, lo - c), min(vy.hi, hi - c))
+        return st
+
     def store(self, lhs, key, v, st):
+        if key is not None and key[0] == "v":
+            # relations that mention the overwritten variable die
+            st.pop(("r", key[1]), None)
+            for k in [k for k in st if k[0] == "r" and st[k][0] == key[1]]:
+                del st[k]
         if key is not None:
             if key[0] == "g":
                 st[key] = v
@@ -893,7 +941,22 @@ class Analysis:
             return st
         return st
 
+    @staticmethod
+    def _after_effect(e):
+        """for an operand whose side effect is already applied (x = .., x op= .., ++x): the lvalue that now holds its value"""
+        cur = e
+        while isinstance(cur, dict) and cur.get("k") == "cast" and cur.get("ck") in ("LValueToRValue", "NoOp"):
+            cur = cur["e"]
+        if isinstance(cur, dict):
+            if cur.get("k") == "bin" and cur.get("op", "").endswith("=") and cur["op"] not in ("==", "!=", "<=", ">="):
+                return cur["a"]
+            if cur.get("k") == "un" and cur.get("op") in ("++", "--") and not cur.get("post"):
+                return cur["e"]
+        return e
+
     def refine_cmp(self, st, op, a, b, truth):
+        a = self._after_effect(a)
+        b = self._after_effect(b)
         if not truth:
             op = {"<": ">=", ">": "<=", "<=": ">", ">=": "<", "==": "!=", "!=": "=="}[op]
             nanfalse = True   # negation of a comparison: NaN stays possible
@@ -1074,7 +1137,7 @@ class Analysis:
                                     out = None
                                     break
                     elif nsucc == 2 and cls in ("IfStmt", "WhileStmt", "ForStmt", "DoStmt", "ConditionalOperator", "BinaryOperator", "BinaryConditionalOperator"):
-                        out = self.refine(out, cond, si == 0)
+                        out = self.propagate(self.refine(out, cond, si == 0))
                         if out is not None and self.edge_hook:
                             # the operand that decides at *this* block: the rightmost one of a logical chain
                             dc = cond
